@@ -7,12 +7,17 @@
     * `prefix_xor_spec`: the six shift-xor steps of the portable `prefix_xor` compute the running
       parity (what the carry-less multiplication by all-ones of the PCLMUL backend computes);
     * `whitespace_shuffle_eq_scalar`: the AVX2 table-shuffle whitespace test equals the scalar test
-      for all 256 byte values.
+      for all 256 byte values;
+    * `digit_run_simd_eq_scalar`: the SSE digit-run parser of `sonic-number` (sub / cmpgt / movemask /
+      trailing_zeros / byte shift / maddubs / madd / packus, with their saturation and wrap-around)
+      returns, for every 16 bytes that start with a digit and every `need` in 1..=16, exactly the sum
+      and the count of the scalar loop of the fallback backend.
   The backends themselves are compared by the check: every case of the streams of C02, C03, C05,
   C06, C07, C08, C09, C10, C12, C13 through two builds (target-cpu=native and baseline x86-64),
   transcripts equal line by line, and the primitives called directly in both builds against this model.
 -/
 import SonicModel.Impl.Simd
+import SonicModel.Lemmas.Str2IntCases
 import Std.Tactic.BVDecide
 namespace Sonic.Thm.C17
 open Sonic Simd
@@ -62,8 +67,47 @@ theorem whitespace_shuffle_eq_scalar : ∀ b : UInt8, isWsShuffle b = isWsScalar
   apply UInt8.forall_of_fin
   decide +kernel
 
+
+theorem take_takeWhile_all (p : UInt8 → Bool) : ∀ (d : List UInt8) (k : Nat), k ≤ (d.takeWhile p).length →
+    ∀ x ∈ d.take k, p x = true := by
+  intro d
+  induction d with
+  | nil => intro k _ x hx; simp at hx
+  | cons b rest ih =>
+    intro k hk x hx
+    cases k with
+    | zero => simp at hx
+    | succ k =>
+      cases hb : p b with
+      | false => simp [hb] at hk
+      | true =>
+        simp only [List.takeWhile_cons, hb, ite_true, List.length_cons, Nat.add_le_add_iff_right] at hk
+        simp only [List.take_succ_cons, List.mem_cons] at hx
+        rcases hx with rfl | hx
+        · exact hb
+        · exact ih k hk x hx
+
+/-- **the two digit-run parsers agree**: on the 16 bytes the SSE version loads — the first a digit, as its
+    only caller guarantees — and for every `need` in `1..=16`, the vector version returns exactly what the
+    scalar loop returns (and never reaches its `unreachable!()`) -/
+theorem digit_run_simd_eq_scalar (b : UInt8) (rest : List UInt8) (need : Nat)
+    (hl : (b :: rest).length = 16) (hb : 48 ≤ b ∧ b ≤ 57) (hn1 : 1 ≤ need) (hn : need ≤ 16) :
+    str2intSimd (b :: rest) need = some (str2intScalar (b :: rest) need) := by
+  have hdl : (subZero (b :: rest)).length = 16 := by simpa [subZero] using hl
+  have hcount := count_spec (subZero (b :: rest)) need hdl hn
+  have hL : 1 ≤ ((subZero (b :: rest)).takeWhile isDig).length := by
+    simp [subZero, (digit_iff b).mp hb]
+  have hk1 : 1 ≤ min need ((subZero (b :: rest)).takeWhile isDig).length := by omega
+  have hk16 : min need ((subZero (b :: rest)).takeWhile isDig).length ≤ 16 := by omega
+  have hdig := take_takeWhile_all isDig (subZero (b :: rest)) _ (Nat.min_le_right need _)
+  have hsum := sumOf_spec (subZero (b :: rest)) hdl _ hk1 hk16 hdig
+  unfold str2intSimd str2intScalar
+  simp only [hcount, hsum, loop_spec, Option.map_some, Nat.zero_add]
+
 /-! non-vacuity -/
 example : eqMask [34, 97, 34, 92] 34 = 5 := by decide
+example : str2intSimd [49, 50, 51, 52, 53, 54, 55, 56, 57, 48, 49, 50, 51, 101, 53, 54] 16 = some (1234567890123, 13) := by decide
+example : str2intScalar [49, 50, 51, 52, 53, 54, 55, 56, 57, 48, 49, 50, 51, 101, 53, 54] 16 = (1234567890123, 13) := by decide
 example : (pxor 0b100100#64) = 0b011100#64 := by decide
 
 end Sonic.Thm.C17
